@@ -254,6 +254,39 @@ fn const_json<'tcx>(tcx: TyCtxt<'tcx>, owner: DefId, c: &mir::ConstOperand<'tcx>
             o.put("promoted", J::Bool(true));
         }
     }
+    // promoted constant of a generic function (cannot be const-evaluated: too generic): read the promoted MIR body,
+    // which for `&LITERAL` is `_1 = const LITERAL; _0 = &_1`
+    if let Const::Unevaluated(u, _) = c.const_ {
+        if let (Some(pidx), ty::Ref(_, inner, _)) = (u.promoted, ty.kind()) {
+            if matches!(inner.kind(), ty::Int(_) | ty::Uint(_) | ty::Bool) && u.def.is_local() {
+                let pm = tcx.promoted_mir(u.def);
+                if let Some(pb) = pm.get(pidx) {
+                    for bbd in pb.basic_blocks.iter() {
+                        for st in bbd.statements.iter() {
+                            if let StatementKind::Assign(pr) = &st.kind {
+                                if let Rvalue::Use(Operand::Constant(cc), _) = &pr.1 {
+                                    let env0 = TypingEnv::post_analysis(tcx, owner);
+                                    if let Some(si) = cc.const_.try_eval_scalar_int(tcx, env0) {
+                                        let size = si.size();
+                                        let bits = si.to_bits(size);
+                                        match inner.kind() {
+                                            ty::Int(_) => {
+                                                let sh = 128 - size.bits();
+                                                let sv = if size.bits() == 0 { 0 } else { ((bits << sh) as i128) >> sh };
+                                                o.put("deref_val", J::Int(sv));
+                                            }
+                                            ty::Bool => o.put("deref_val", J::Bool(bits != 0)),
+                                            _ => o.put("deref_val", J::UInt(bits)),
+                                        }
+                                    }
+                                }
+                            }
+                        }
+                    }
+                }
+            }
+        }
+    }
     let env = TypingEnv::post_analysis(tcx, owner);
     let evald = std::panic::catch_unwind(std::panic::AssertUnwindSafe(|| c.const_.eval(tcx, env, c.span)));
     if let Ok(Ok(v)) = evald {
